@@ -30,6 +30,8 @@ type PropSpec struct {
 	// AlsoLabels: label prefixes of another property whose clauses this property relies on as well
 	// (e.g. C05 needs the rule-list removals of C03 to return exactly the removed rule).
 	AlsoLabels []string `json:"also_labels,omitempty"`
+	// BlockAllow: reviewed blocking operations for the static obligation "blocksweep:<entry>"
+	BlockAllow []BlockAllow `json:"block_allow,omitempty"`
 }
 
 type KnownFinding struct {
@@ -167,6 +169,9 @@ func cmdCheck(args []string) {
 		}
 		if strings.HasPrefix(st, "constants:") {
 			results = append(results, verifyConstants(*repo))
+		}
+		if strings.HasPrefix(st, "blocksweep:") {
+			results = append(results, verifyBlockSweep(P, strings.TrimPrefix(st, "blocksweep:"), ps.BlockAllow))
 		}
 	}
 
